@@ -13,7 +13,8 @@ Families (generators in verif/gen/c10_*.py; each module docstring states its gra
         placements + one seed-chosen extra placement; duplicate-keyword shapes for <=1 parameter
         | <=3 parameters, every call shape, all 11 placements + duplicate-keyword shapes for <=2 parameters in 6 placements
   ops   binary/reflected/comparison/unary/truth/augmented dunder dispatch: all operators x operand relations x
-        method specs (same in both tiers)
+        method specs on two classes (both tiers); hierarchies A <- B <- C(M, B) with the forward / reflected method
+        defined in A / overridden in B / in C / in the mixin, for + - < == | all 19 operators
   cls   inheritance, super(), __init__ chains, properties, __call__, class/static methods, isinstance/type matrices
   clo   closures: all scope trees of depth 2 and 3; name-resolution chains (local / parameter / cell / outer cell /
         module global / builtin of the same name, closures made outside and inside the context); loop capture; idioms
